@@ -88,6 +88,11 @@ GF == [
   fs2 |-> [kind |-> "fn", sites |-> << Site("a", "d1", Arg), Site("s", "sc2", <<"pair", Val("a"), <<"seq", Cn(0), Cn(1)>>>>),
                                         Site("y", "d1", <<"fst", Val("s")>>) >>,
            ret |-> Add(Val("y"), <<"sum", <<"snd", Val("s")>>>>)],
+  \* a Scan whose step takes a KEYWORD argument (shared by all iterations), passed by the parent
+  sck |-> [kind |-> "scan", callee |-> "st2", n |-> 2, kwstep |-> TRUE],
+  fsk |-> [kind |-> "fn", sites |-> << Site("a", "d1", Arg), SiteKw("s", "sck", <<"pair", Val("a"), <<"seq", Cn(0), Cn(1)>>>>),
+                                        Site("y", "d1", <<"fst", Val("s")>>) >>,
+           ret |-> Add(Val("y"), <<"sum", <<"snd", Val("s")>>>>)],
   \* cond with shared addresses in the branches; the condition depends on an earlier choice
   bT  |-> [kind |-> "fn", sites |-> << Site("x", "d0", Arg) >>, ret |-> Val("x")],
   bF  |-> [kind |-> "fn", sites |-> << Site("x", "d1", Add(Arg, Cn(1))) >>, ret |-> Add(Val("x"), Cn(1))],
@@ -119,6 +124,15 @@ GF == [
   ch  |-> [kind |-> "cond", t |-> "hT", f |-> "hF"],
   fch |-> [kind |-> "fn", sites |-> << Site("c", "ch", <<"pair", <<"eq", Arg, Cn(0)>>, Arg>>), Site("y", "d1", Val("c")) >>,
            ret |-> Val("y")],
+  \* a directly vectorised Cond whose branches hold an ARRAY-valued address: condition of shape (lanes,), values of shape (lanes, 2)
+  bd1 |-> [kind |-> "vmap", callee |-> "d1", n |-> 2, bcast |-> FALSE, as_site |-> TRUE],
+  gbT |-> [kind |-> "fn", sites |-> << Site("v", "bd", <<"seq", Arg, Add(Arg, Cn(1))>>) >>, ret |-> <<"sum", Val("v")>>],
+  gbF |-> [kind |-> "fn", sites |-> << Site("v", "bd1", <<"seq", Add(Arg, Cn(1)), Arg>>) >>, ret |-> <<"sum", Val("v")>>],
+  cb  |-> [kind |-> "cond", t |-> "gbT", f |-> "gbF"],
+  vcb |-> [kind |-> "vmap", callee |-> "cb", n |-> 2, bcast |-> FALSE],
+  fvcb |-> [kind |-> "fn", sites |-> << Site("z", "d0", Arg),
+                                        Site("w", "vcb", <<"seq", <<"pair", <<"eq", Val("z"), Cn(0)>>, Val("z")>>, <<"pair", <<"eq", Val("z"), Cn(1)>>, Add(Val("z"), Cn(1))>>>>) >>,
+           ret |-> <<"sum", Val("w")>>],
   \* cond directly over two distributions
   cdd |-> [kind |-> "cond", t |-> "d0", f |-> "d1"],
   fd  |-> [kind |-> "fn", sites |-> << Site("c", "cdd", <<"pair", <<"eq", Arg, Cn(1)>>, Arg>>), Site("y", "d0", Val("c")) >>,
